@@ -121,10 +121,10 @@ def make_arg(spec):
         return [1.0, 2.0]
     if k == "str":
         return "ds"
-    if k == "numpy":
-        import numpy
-
-        return numpy.ones(tuple(spec.get("dims", (2,))))
+    if k == "object":
+        return object()
+    if k == "bool":
+        return True
     if k == "dict":
         return {(0,): 1.0}
     raise ValueError(k)
